@@ -373,11 +373,18 @@ pub(crate) fn prepare_insertion_ctx(insertion_ctx: &mut InsertionContext) {
 pub(crate) fn finalize_insertion_ctx(insertion_ctx: &mut InsertionContext) {
     finalize_unassigned(insertion_ctx, UnassignmentInfo::Unknown);
 
+    // NOTE: a feature can add an empty route to give failed jobs another chance (e.g. rescheduled departure for
+    // tour duration limit): do not keep it if nothing was inserted. This is done before the solution state is
+    // updated: features have to see the routes which stay (e.g. a break of a vehicle without tour is not required)
+    insertion_ctx.solution.remove_empty_routes();
+
     insertion_ctx.problem.goal.accept_solution_state(&mut insertion_ctx.solution);
 
-    // NOTE: a feature can add an empty route to give failed jobs another chance (e.g. rescheduled departure for
-    // tour duration limit): do not keep it if nothing was inserted
-    insertion_ctx.solution.remove_empty_routes();
+    // NOTE: the update itself can leave a route without jobs (e.g. a needless marker job is taken out)
+    if insertion_ctx.solution.routes.iter().any(|route_ctx| !route_ctx.route().tour.has_jobs()) {
+        insertion_ctx.solution.remove_empty_routes();
+        insertion_ctx.problem.goal.accept_solution_state(&mut insertion_ctx.solution);
+    }
 }
 
 pub(crate) fn apply_insertion_success(insertion_ctx: &mut InsertionContext, success: InsertionSuccess) {
